@@ -11,6 +11,22 @@ LEVEL_TEXT = "Bounded model checking of the real define/create/lookup code again
 LEVEL_NOTE = "; ".join(ASSUMPTIONS)
 
 
+def gen_types(ctx_, outdir):
+    # CBMC models a union through its FIRST member: with `int64_t i` first, a pointer stored in YR_VALUE.ss comes
+    # back as an integer without provenance ("invalid object").  Member order does not change a union's layout in
+    # C, so the harness compiles against a copy of types.h (regenerated from /repo on every run) in which the
+    # SIZED_STRING* member is declared first.
+    src = os.path.join(REPO, "libyara", "include", "yara", "types.h")
+    t = open(src, errors="replace").read()
+    m = re.search(r"union YR_VALUE\s*\{(.*?)\};", t, re.S)
+    if not m or "SIZED_STRING* ss;" not in m.group(1):
+        raise RuntimeError("union YR_VALUE not found in types.h")
+    body = m.group(1).replace("  SIZED_STRING* ss;\n", "")
+    t2 = t[:m.start(1)] + "\n  SIZED_STRING* ss; /* moved first by vf/props/c20.py, see there */" + body + t[m.end(1):]
+    os.makedirs(os.path.join(outdir, "yara"), exist_ok=True)
+    open(os.path.join(outdir, "yara", "types.h"), "w").write(t2)
+
+
 def harnesses(ctx, tier):
     hs = []
     names = {1: "float", 2: "integer", 3: "boolean"}
@@ -27,20 +43,6 @@ def harnesses(ctx, tier):
                       desc="compile-time definitions: a duplicate identifier is rejected and leaves the externals table unchanged; a new identifier adds one entry",
                       bounds="second definition: identifier a|b, integer/boolean/float, any value",
                       functions=["yr_compiler_define_integer/boolean/float_variable", "_yr_compiler_define_variable", "_yr_compiler_store_data", "yr_arena_allocate_struct"]))
-    def gen_types(ctx_, outdir):
-        # CBMC models a union through its FIRST member: with `int64_t i` first, a pointer stored in YR_VALUE.ss comes
-        # back as an integer without provenance ("invalid object").  Member order does not change a union's layout in
-        # C, so the harness compiles against a copy of types.h (regenerated from /repo on every run) in which the
-        # SIZED_STRING* member is declared first.
-        src = os.path.join(REPO, "libyara", "include", "yara", "types.h")
-        t = open(src, errors="replace").read()
-        m = re.search(r"union YR_VALUE\s*\{(.*?)\};", t, re.S)
-        if not m or "SIZED_STRING* ss;" not in m.group(1):
-            raise RuntimeError("union YR_VALUE not found in types.h")
-        body = m.group(1).replace("  SIZED_STRING* ss;\n", "")
-        t2 = t[:m.start(1)] + "\n  SIZED_STRING* ss; /* moved first by vf/props/c20.py, see there */" + body + t[m.end(1):]
-        os.makedirs(os.path.join(outdir, "yara"), exist_ok=True)
-        open(os.path.join(outdir, "yara", "types.h"), "w").write(t2)
     hs.append(Harness(name="H3_value_setters", src="c20/setters.c", unwind=10, timeout=600, leak_check=True, gen=gen_types, includes=["-I@OUTDIR@", "-I" + os.path.join(REPO, "libyara", "include", "yara")],
                       desc="yr_object_set_string / _integer / _float (the setters behind rules- and scanner-level definitions): after a set the object holds exactly the new value, for any previous value",
                       bounds="strings of 0..3 bytes over {a,b} (previous value: none or any such string; new value: NULL or any such string); all 64-bit integers / doubles; the allocation may fail",
